@@ -18,7 +18,7 @@ def states_matrix(ode) -> sympy.Matrix:
     return sympy.Matrix([state.symbol for state in ode.sorted_states()])
 
 
-def rhs_matrix(ode, max_tries: int = 20) -> sympy.Matrix:
+def rhs_matrix(ode, max_tries: int | None = None) -> sympy.Matrix:
     """Return a sympy matrix of the right hand side of the ODE
 
     Parameters
@@ -26,7 +26,9 @@ def rhs_matrix(ode, max_tries: int = 20) -> sympy.Matrix:
     ode : gotranx.ode.ODE
         The ODE
     max_tries : int, optional
-        Maximum number of tries to try to replace the symbols, by default 20
+        Maximum number of tries to try to replace the symbols. By default one
+        more than the number of intermediates, which is enough for any acyclic
+        chain of definitions
 
     Returns
     -------
@@ -41,12 +43,16 @@ def rhs_matrix(ode, max_tries: int = 20) -> sympy.Matrix:
     intermediates = {x.symbol: x.expr for x in ode.intermediates}
     rhs = sympy.Matrix([state.expr for state in ode.sorted_state_derivatives()])
 
+    if max_tries is None:
+        # Each round removes at least one level of intermediates
+        max_tries = len(intermediates) + 1
+
     num_tries = 0
     while (any([rhs.has(k) for k in intermediates.keys()])) and num_tries < max_tries:
         rhs = rhs.xreplace(intermediates)
         num_tries += 1
 
-    if num_tries == max_tries:
+    if any([rhs.has(k) for k in intermediates.keys()]):
         raise RuntimeError("Maximum number of tries used")
     return rhs
 
